@@ -238,7 +238,7 @@ func (f *Font) makeTemplateData(opt *WriterOptions) *fontInfo {
 		BlueValues:         f.Private.BlueValues,
 		CharStrings:        f.encodeCharstrings(),
 		Copyright:          f.FontInfo.Copyright,
-		CreationDate:       f.CreationDate,
+		CreationDate:       writableDate(f.CreationDate),
 		Encoding:           f.Encoding,
 		FamilyName:         f.FontInfo.FamilyName,
 		FontMatrix:         fontMatrix,
@@ -484,4 +484,35 @@ type fontInfo struct {
 	Weight             string
 
 	EExec bool
+}
+
+// writableDate returns t in a time zone which survives being written to the
+// %%CreationDate comment and read back: the comment holds the zone offset in
+// hours and minutes only, and the reader only understands zone abbreviations
+// of the customary form (three to five capital letters).  Other zones are
+// replaced by UTC or by a zone without abbreviation; the instant is unchanged.
+func writableDate(t time.Time) time.Time {
+	if t.IsZero() {
+		return t
+	}
+	name, offset := t.Zone()
+	if offset%60 != 0 {
+		return t.UTC()
+	}
+	ok := len(name) >= 3 && len(name) <= 5
+	for _, c := range []byte(name) {
+		if c < 'A' || c > 'Z' {
+			ok = false
+		}
+	}
+	if ok && len(name) > 3 && name[len(name)-1] != 'T' {
+		ok = false
+	}
+	if ok && (strings.HasPrefix(name, "GMT") && name != "GMT") {
+		ok = false
+	}
+	if !ok {
+		return t.In(time.FixedZone("", offset))
+	}
+	return t
 }
